@@ -31,6 +31,14 @@ LOCK = threading.Lock()
 LABEL = [0]
 
 
+def make_class(label):
+    import Pyro5.api as api
+
+    def hit(self):
+        return type(self).label
+    return api.expose(type("K", (object,), {"hit": hit, "label": label}))
+
+
 def _classes():
     import Pyro5.api as api
 
@@ -53,10 +61,13 @@ def _classes():
     @api.expose
     class Relay(object):
         def give(self, k):
-            return POOL[k]
+            o = POOL[k]
+            return o() if isinstance(o, type) else o      # slot 4 holds a class: hand out an instance of it
 
         def twin(self, k):
             o = POOL[k]
+            if isinstance(o, type):
+                return make_class(o.label)()              # instance of a never-registered class of the same shape
             return type(o)(o.label)
 
         def give_list(self, k):
@@ -65,19 +76,19 @@ def _classes():
 
 
 IDS = ["x", "y", "Pyro.Daemon", "", "relay"]
-_reg = st.tuples(st.just("register"), st.integers(0, 3), st.sampled_from([None, "x", "x", "x", "y", "Pyro.Daemon", ""]), st.booleans(), st.booleans())
+_reg = st.tuples(st.just("register"), st.sampled_from([0, 1, 2, 3, 4, 4]), st.sampled_from([None, "x", "x", "x", "y", "Pyro.Daemon", ""]), st.booleans(), st.booleans())
 step = st.one_of(
     _reg, _reg, _reg,
-    st.tuples(st.just("unregister_obj"), st.integers(0, 3)),
+    st.tuples(st.just("unregister_obj"), st.sampled_from([0, 1, 2, 3, 4])),
     st.tuples(st.just("unregister_id"), st.sampled_from(["x", "y", "gen0", "gen1", "nope", "Pyro.Daemon"])),
     st.tuples(st.just("call"), st.sampled_from(["x", "y", "gen0", "gen1", "nope"])),
     st.tuples(st.just("call"), st.sampled_from(["x", "y", "gen0", "gen1"])),
-    st.tuples(st.just("give"), st.integers(0, 3)),
-    st.tuples(st.just("give"), st.integers(0, 3)),
-    st.tuples(st.just("uri"), st.integers(0, 3)),
-    st.tuples(st.just("proxyfor"), st.integers(0, 3)),
+    st.tuples(st.just("give"), st.sampled_from([0, 1, 2, 3, 4])),
+    st.tuples(st.just("give"), st.sampled_from([0, 1, 2, 3, 4])),
+    st.tuples(st.just("uri"), st.sampled_from([0, 1, 2, 3, 4])),
+    st.tuples(st.just("proxyfor"), st.sampled_from([0, 1, 2, 3, 4])),
     st.tuples(st.just("registered")),
-    st.tuples(st.just("drop"), st.integers(0, 3)),
+    st.tuples(st.just("drop"), st.sampled_from([0, 1, 2, 3, 4])),
     st.tuples(st.just("daemon_ping")),
 ).map(list)
 
@@ -139,8 +150,10 @@ def run_case(case, servertype=None, keep=False):
 
     def fresh(k):
         LABEL[0] += 1
+        if k == 4:
+            return make_class("cls-%d" % LABEL[0])
         return (A if k % 2 == 0 else B)("obj%d-%d" % (k, LABEL[0]))
-    for k in range(4):
+    for k in range(5):
         POOL[k] = fresh(k)
     model = {}          # id -> pool index
     weak = {}           # id -> bool
@@ -181,8 +194,15 @@ def run_case(case, servertype=None, keep=False):
                     res = ("ok", uri)
                 except errors.DaemonError as x:
                     res = ("refused", x)
+                except TypeError as x:
+                    res = ("typeerror", x) if (k == 4 and wk) else ("error", x)
                 except Exception as x:
                     res = ("error", x)
+                if k == 4 and wk:
+                    if res[0] == "ok":
+                        viol("weak-class-registration-accepted", "%s: classes cannot be registered weakly, but it returned %s" % (label, res[1]))
+                        break
+                    continue
                 if force:
                     flags["force"] = True
                 if res[0] == "error":
@@ -370,6 +390,8 @@ CATALOGUE = [
     [["register", 0, "x", False, True], ["give", 0], ["drop", 0], ["call", "x"], ["registered"], ["register", 1, "x", False, False], ["call", "x"]],
     [["register", 0, "x", False, False], ["unregister_obj", 0], ["unregister_obj", 0], ["give", 0], ["register", 0, "x", False, False], ["call", "x"], ["give", 0]],
     [["register", 0, "", False, False], ["register", 1, "", False, True], ["registered"], ["drop", 1], ["registered"], ["call", "gen0"], ["call", "gen1"]],
+    [["register", 4, "x", False, False], ["call", "x"], ["give", 4], ["uri", 4], ["register", 4, None, False, False], ["unregister_id", "x"], ["give", 4], ["call", "x"], ["registered"]],
+    [["register", 4, "x", False, True], ["register", 4, "x", False, False], ["register", 0, "x", True, False], ["give", 4], ["uri", 4], ["unregister_obj", 4], ["call", "x"], ["give", 0]],
 ]
 
 
